@@ -35,6 +35,7 @@ CONT = {"script": 6, "style": 7, "template": 8, "rt": 9, "rp": 10}
 TEXT_ATOMS = ["a", "b", " ", "  ", "\n", "\t", "x y", "&", "<", ">", "\"", "'", ";", "#", "é", "☃", "≦̸", " ",
               "&amp", "&lt;", "&#65;", "&nosuch;", "1", "=", "/", "\x0c", "\r", "--", "]]", "?"]
 NAME2CP = {k.rstrip(";"): v for k, v in html.entities.html5.items() if k.endswith(";")}
+ENTITY_DENOTES = {(k[:-1] if k.endswith(";") else k): v for k, v in html.entities.html5.items()}
 CP2NAME = {}
 for _k, _v in sorted(html.entities.html5.items()):
     if _k.endswith(";") and len(_v) == 1:
@@ -75,8 +76,8 @@ class Recorder(HTMLParser):
         self.ev.append(f"CR|{cps(name) or '-'}")
 
     def handle_entityref(self, name):
-        from bs4.dammit import EntitySubstitution
-        r = EntitySubstitution.HTML_ENTITY_TO_CHARACTER.get(name)
+        # what the name denotes: the standard library's HTML5 table (NOT bs4's copy of it, which is code under test)
+        r = ENTITY_DENOTES.get(name)
         self.ev.append(f"ER|{cps(name) or '-'}|{'~' if r is None else (cps(r) or '-')}")
 
     def handle_comment(self, data):
@@ -157,7 +158,31 @@ def real_parse(text, opts):
         kw["store_line_numbers"] = False
     with warnings.catch_warnings():
         warnings.simplefilter("ignore")
+        if opts.get("enc"):
+            soup = BeautifulSoup(text.encode(opts["enc"]), "html.parser", from_encoding=opts["enc"], **kw)
+            if (soup.original_encoding or "").lower() != opts["enc"].lower():
+                raise AssertionError(f"harness: from_encoding={opts['enc']} was not used ({soup.original_encoding})")
+            return soup
         return BeautifulSoup(text, "html.parser", **kw)
+
+
+def orig_table(enc):
+    """bytearray([n]).decode(enc) for the n < 256 that windows-1252 cannot decode (the only ones where it matters)"""
+    out = {}
+    if not enc:
+        return out
+    for n in range(256):
+        try:
+            bytes([n]).decode("windows-1252")
+            continue
+        except UnicodeDecodeError:
+            pass
+        try:
+            d = bytes([n]).decode(enc)
+        except UnicodeError:
+            continue
+        out[n] = d
+    return out
 
 
 def cfg_tokens(opts):
@@ -169,7 +194,11 @@ def cfg_tokens(opts):
     cont = opts.get("cont", CONT)
     p = "pre=" + (".".join(pre) if pre else "-")
     c = "cont=" + (".".join(f"{k}:{v2}" for k, v2 in cont.items()) if cont else "-")
-    return f"{v} {d} {l} {p} {c}"
+    base = f"{v} {d} {l} {p} {c}"
+    if opts.get("enc"):
+        t = orig_table(opts["enc"])
+        base += " orig=" + (".".join(f"{n}:{cps(x) or '-'}" for n, x in sorted(t.items())) if t else "-")
+    return base
 
 
 _vd = None
@@ -245,7 +274,7 @@ def py_adapter_fold(evs, opts):
                 try:
                     data = bytes([n]).decode("windows-1252")
                 except UnicodeDecodeError:
-                    data = None
+                    data = orig_table(opts.get("enc")).get(n) if opts.get("enc") else None
             if not data and n is not None:
                 try:
                     data = chr(n)
@@ -501,6 +530,14 @@ SOUP_TOKENS = ["<", ">", "</", "/>", "<a", "<b", "<br", "<br>", "<br/>", "</br>"
                "<rt>", "<style>", "</style>", "</", "<a/>", "<A HREF=X>", "\r\n", "\x00"]
 
 
+def _cp1252_ok(n):
+    try:
+        bytes([n]).decode("windows-1252")
+        return True
+    except UnicodeDecodeError:
+        return False
+
+
 def gen_soup(r):
     return "".join(r.choice(SOUP_TOKENS) for _ in range(r.randint(1, 14)))
 
@@ -583,6 +620,54 @@ def run(ctx: Ctx):
         if r.random() < 0.5:
             text += "<a k=1 k=2 K=3 j k='4'>"
         add_case(text, opts, "grid")
+    # (4) references, exhaustively: every numeric reference below 0x300 and at the range boundaries in every spelling, every name of
+    #     the standard library's HTML5 table, and near-names (every proper prefix of a name that is not itself a name, names with one
+    #     more letter) with every terminator; str input and bytes input in a declared encoding (original_encoding set)
+    nums = list(range(0, 0x300)) + [0xD7FF, 0xD800, 0xDBFF, 0xDFFF, 0xE000, 0xFFFD, 0xFFFE, 0xFFFF, 0x10000, 0x1FFFF, 0x10FFFF,
+                                    0x110000, 0x7FFFFFFF, 0x80000000, 0xFFFFFFFF, 2 ** 64, 10 ** 30]
+    def num_forms(n, r):
+        return [f"&#{n};", f"&#x{n:x};", f"&#X{n:X};", f"&#{'0' * r.randint(1, 3)}{n};", f"&#x{'0' * r.randint(1, 3)}{n:X};", f"&#{n} ", f"&#x{n:x}<"]
+    r = ctx.rng("refs", 0)
+    pieces = []
+    for n in nums:
+        fs = num_forms(n, r)
+        pieces += fs if ctx.tier == "thorough" else [fs[0], fs[1], r.choice(fs[2:])]
+    names = sorted(ENTITY_DENOTES)
+    near = set()
+    for nm in names:
+        for k in range(1, len(nm)):
+            if nm[:k] not in ENTITY_DENOTES:
+                near.add(nm[:k])
+        near.add(nm + "x")
+    near = sorted(near)
+    terms = [";", " ", "=", "<i>", ""]
+    for nm in names:
+        pieces.append(f"&{nm};")
+        pieces += [f"&{nm}{t}" for t in (terms[1:] if ctx.tier == "thorough" else [r.choice(terms[1:])])]
+    for nm in near:
+        pieces += [f"&{nm}{t}" for t in (terms if ctx.tier == "thorough" else [r.choice(terms)])]
+    ctx.count("refs:numeric-values", len(nums)); ctx.count("refs:names", len(names)); ctx.count("refs:near-names", len(near))
+    r.shuffle(pieces)
+    G = 12
+    for off in range(0, len(pieces), G):
+        text = "".join(f"<p>a{x}b</p>" for x in pieces[off:off + G])
+        add_case(text, {}, "references")
+    # digit strings beyond sys.int_max_str_digits (decimal only is limited) and enormous hex
+    import sys as _sys
+    lim = _sys.get_int_max_str_digits() or 4300
+    for x in ("&#" + "9" * lim + ";", "&#" + "9" * (lim + 1) + ";", "&#x" + "f" * (lim + 50) + ";", "&#" + "0" * (lim + 5) + "65;"):
+        add_case(f"<p>a{x}b</p>", {}, "references")
+    # bytes input: the n < 256 that windows-1252 cannot decode take the document's own encoding
+    undefined = sorted(n for n in range(256) if n not in {k for k in range(256) if _cp1252_ok(k)})
+    for enc in ("utf-8", "iso-8859-1", "windows-1251", "koi8-r", "iso-8859-7", "cp437", "mac-roman", "shift_jis", "windows-1252", "ascii"):
+        body = "".join(f"<p>a&#{n};b&#x{n:x};c</p>" for n in undefined + [65, 128, 150, 159, 160, 233, 255, 256, 0x20AC])
+        add_case(body, {"enc": enc}, "references-bytes")
+        for i in range(ctx.n(20, 200)):
+            r2 = ctx.rng("refs-bytes", enc, i)
+            nodes = gen_tree(r2)
+            t2 = write(r2, nodes, [], [0])
+            t2 = "".join(ch for ch in t2 if ord(ch) < 128) + f"&#{r2.choice(undefined)};"
+            add_case(t2, {"enc": enc}, "references-bytes")
     B = 20000
     for off in range(0, len(lines), B):
         rep = drv.ask(lines[off:off + B])
